@@ -57,6 +57,8 @@ fn guard_len(l: &Layout) -> usize {
 fn new_block(l: &Layout, cap: usize) -> Option<Block> {
     let bytes = l.size().checked_mul(cap).expect("Track: capacity overflow");
     if bytes == 0 { return None; }
+    // a user backend may panic when it cannot provide the memory (documented for MemResizable)
+    if bytes > (1usize << 34) { let _w = WindowOff::new(); panic!("Track: out of memory ({bytes} bytes requested)"); }
     let g = guard_len(l);
     // payload is aligned to `align` but deliberately NOT to 2*align
     let front = g + l.align();
